@@ -2207,6 +2207,7 @@ impl<'bump, T: 'bump> Vec<'bump, T> {
         Splice {
             drain: self.drain(range),
             replace_with: replace_with.into_iter(),
+            _arena: PhantomData,
         }
     }
 }
@@ -2580,6 +2581,10 @@ impl<'a, 'bump, T> FusedIterator for Drain<'a, 'bump, T> {}
 pub struct Splice<'a, 'bump, I: Iterator + 'a + 'bump> {
     drain: Drain<'a, 'bump, I::Item>,
     replace_with: I,
+    // Dropping a `Splice` allocates from the arena the vector lives in (`move_tail` /
+    // `extend`), so it must be as thread-bound as the `&'bump Bump` inside that vector.
+    // (`Drain` alone is `Send`: its destructor only moves elements.)
+    _arena: PhantomData<&'bump Bump>,
 }
 
 impl<'a, 'bump, I: Iterator> Iterator for Splice<'a, 'bump, I> {
